@@ -3,6 +3,7 @@ package props
 import (
 	"go/token"
 	"go/types"
+	"strings"
 
 	"golang.org/x/tools/go/ssa"
 
@@ -174,6 +175,10 @@ func (a *bufAnalysis) checkWholeUse(w ssa.Value, ref ssa.Instruction) string {
 				return "copy() on the whole buffer: reads or overwrites bytes present before this call"
 			}
 		}
+		if base, ok := stdAppendBase(x); ok && base == w {
+			// binary.LittleEndian.AppendUint16(b.Buf, v) and friends: append under another name
+			return a.appendResultOK(x)
+		}
 		return "the whole buffer (including bytes present at entry) is passed to " + calleeName(x)
 	case *ssa.Slice:
 		if x.X != w {
@@ -262,11 +267,14 @@ func (a *bufAnalysis) isAppended(v ssa.Value, d int) bool {
 		}
 		return false
 	}
-	bi, ok := c.Call.Value.(*ssa.Builtin)
-	if !ok || bi.Name() != "append" {
+	var base ssa.Value
+	if bi, ok := c.Call.Value.(*ssa.Builtin); ok && bi.Name() == "append" {
+		base = c.Call.Args[0]
+	} else if b, ok := stdAppendBase(c); ok {
+		base = b
+	} else {
 		return false
 	}
-	base := c.Call.Args[0]
 	if a.whole[base] {
 		return true
 	}
@@ -504,4 +512,27 @@ func runBufDisc(c *Ctx, p *core.Program, rule string) int {
 		}
 	}
 	return n
+}
+
+// stdAppendBase: c is a call of a standard-library Append* function (encoding/binary's AppendUintN /
+// AppendUvarint / ByteOrder methods, strconv.Append*, utf8.AppendRune) - functions documented to append to
+// their []byte argument and return the extended slice; base is that argument.
+func stdAppendBase(c *ssa.Call) (ssa.Value, bool) {
+	f := core.CalleeFunc(c)
+	if f == nil || f.Pkg() == nil || !strings.HasPrefix(f.Name(), "Append") {
+		return nil, false
+	}
+	switch f.Pkg().Path() {
+	case "encoding/binary", "strconv", "unicode/utf8":
+	default:
+		return nil, false
+	}
+	for _, a := range c.Call.Args {
+		if sl, ok := a.Type().Underlying().(*types.Slice); ok {
+			if bt, ok := sl.Elem().Underlying().(*types.Basic); ok && bt.Kind() == types.Uint8 {
+				return a, true
+			}
+		}
+	}
+	return nil, false
 }
